@@ -1,7 +1,5 @@
 package scen
 
-import "fmt"
-
 // Alphabets of cardinality and pseudo-boolean constraints (complete within their bounds).
 
 // cardAlphabet: every constructor call of the cardinality front end over variables 1..n.
@@ -183,7 +181,7 @@ func enumMixedCatalogue(seed int64, nseeds int, weighted bool, yield func(name s
 			}
 			cs = append(cs, Con{T: "atl", L: l, K: card})
 		}
-		name := fmt.Sprintf("%s/seed%d", tag, sd)
+		name := tag // (the seed index is part of the case, not of the family name: evidence stays small)
 		if !yield(name, Prob{Front: "pb", N: n, Cs: cpCons(cs...)}) {
 			return false
 		}
